@@ -181,6 +181,8 @@ struct Obs {
     /// the export plugin configured with the same filter set: keys (reception time, timestamp, mcnt, payload) of the
     /// messages found in the file it wrote, without its own info messages. None = not observed for this set size
     export_keys: Option<Vec<(u64, u32, u8, Vec<u8>)>>,
+    /// the same with a sync_all() after every 7 messages
+    export_keys_synced: Option<Vec<(u64, u32, u8, Vec<u8>)>>,
 }
 
 fn observe(fx: &Fixture, set: &[&PoolEntry]) -> Result<Obs, (String, String)> {
@@ -253,44 +255,55 @@ fn observe(fx: &Fixture, set: &[&PoolEntry]) -> Result<Obs, (String, String)> {
         }
     }
     // (d) the export plugin (sets of up to EXPORT_MAX_SET filters): it builds its own container from the same JSON
+    let mut export_keys_synced: Option<Vec<(u64, u32, u8, Vec<u8>)>> = None;
     let export_keys = if set.len() <= export_max_set() {
         let dir = if std::path::Path::new("/dev/shm").is_dir() { "/dev/shm" } else { "/tmp" };
         let path = format!("{dir}/mc-c12-export-{}-{:?}.dlt", std::process::id(), std::thread::current().id());
         let _ = std::fs::remove_file(&path);
         let cfg = json!({"name": "Export", "exportFileName": path, "filters": set.iter().map(|p| serde_json::from_str::<Value>(&p.json).unwrap()).collect::<Vec<_>>()});
-        let r = catch(|| -> Result<(), String> {
-            let mut plugin = adlt::plugins::export::ExportPlugin::from_json(cfg.as_object().unwrap()).map_err(|e| e.to_string())?;
-            use adlt::plugins::plugin::Plugin;
-            for m in &fx.msgs {
-                let mut m = m.clone();
-                plugin.process_msg(&mut m);
+        // twice: in one go, and with a sync_all() after every 7 messages (the trait allows it at any time)
+        let mut both = vec![];
+        for sync_every in [usize::MAX, 7] {
+            let r = catch(|| -> Result<(), String> {
+                let mut plugin = adlt::plugins::export::ExportPlugin::from_json(cfg.as_object().unwrap()).map_err(|e| e.to_string())?;
+                use adlt::plugins::plugin::Plugin;
+                for (i, m) in fx.msgs.iter().enumerate() {
+                    let mut m = m.clone();
+                    plugin.process_msg(&mut m);
+                    if (i + 1) % sync_every == 0 {
+                        plugin.sync_all();
+                    }
+                }
+                plugin.sync_all();
+                drop(plugin);
+                Ok(())
+            });
+            match r {
+                Err(p) => {
+                    let _ = std::fs::remove_file(&path);
+                    return Err(("panic".into(), format!("{}|ExportPlugin: {}", p.loc, p.msg)));
+                }
+                Ok(Err(e)) => {
+                    let _ = std::fs::remove_file(&path);
+                    return Err(("export_construct".into(), format!("|ExportPlugin::from_json failed: {e}")));
+                }
+                Ok(Ok(())) => {}
             }
-            drop(plugin);
-            Ok(())
-        });
-        match r {
-            Err(p) => {
-                let _ = std::fs::remove_file(&path);
-                return Err(("panic".into(), format!("{}|ExportPlugin: {}", p.loc, p.msg)));
-            }
-            Ok(Err(e)) => {
-                let _ = std::fs::remove_file(&path);
-                return Err(("export_construct".into(), format!("|ExportPlugin::from_json failed: {e}")));
-            }
-            Ok(Ok(())) => {}
+            let bytes = std::fs::read(&path).unwrap_or_default();
+            let _ = std::fs::remove_file(&path);
+            let mut keys: Vec<(u64, u32, u8, Vec<u8>)> = adlt::utils::DltMessageIterator::new(0, &bytes[..])
+                .filter(|m| !(m.apid().map(|a| a.as_buf() == b"VsDl").unwrap_or(false) && m.ctid().map(|c| c.as_buf() == b"Info").unwrap_or(false)))
+                .map(|m| (m.reception_time_us, m.timestamp_dms, m.standard_header.mcnt, m.payload.clone()))
+                .collect();
+            keys.sort();
+            both.push(keys);
         }
-        let bytes = std::fs::read(&path).unwrap_or_default();
-        let _ = std::fs::remove_file(&path);
-        let mut keys: Vec<(u64, u32, u8, Vec<u8>)> = adlt::utils::DltMessageIterator::new(0, &bytes[..])
-            .filter(|m| !(m.apid().map(|a| a.as_buf() == b"VsDl").unwrap_or(false) && m.ctid().map(|c| c.as_buf() == b"Info").unwrap_or(false)))
-            .map(|m| (m.reception_time_us, m.timestamp_dms, m.standard_header.mcnt, m.payload.clone()))
-            .collect();
-        keys.sort();
-        Some(keys)
+        export_keys_synced = both.pop();
+        both.pop()
     } else {
         None
     };
-    Ok(Obs { fas_kept, fas_unchanged: unchanged, fas_counts: counts, mf_kept, stream_sets, export_keys })
+    Ok(Obs { fas_kept, fas_unchanged: unchanged, fas_counts: counts, mf_kept, stream_sets, export_keys, export_keys_synced })
 }
 
 /// the export plugin is driven for filter sets up to this size (quick 2, thorough 3; set by the run)
@@ -363,6 +376,10 @@ fn judge(fx: &Fixture, set: &[&PoolEntry]) -> Vec<(String, String, String)> {
         want.sort();
         if *keys != want && !v.iter().any(|(c, _, _)| c == "mf_selection") {
             v.push(("export_selection".into(), if keys.len() < want.len() { "exported_too_few" } else { "exported_other" }.into(), format!("the export plugin wrote {} messages, the statement keeps {} of {n}", keys.len(), want.len())));
+        } else if let Some(ks) = &obs.export_keys_synced {
+            if *ks != want && !v.iter().any(|(c, _, _)| c == "mf_selection") {
+                v.push(("export_selection".into(), "with_intermediate_sync".into(), format!("with a sync_all() after every 7 messages the export file holds {} messages, the statement keeps {} of {n}", ks.len(), want.len())));
+            }
         }
     }
     // agreement where both apply
